@@ -157,3 +157,13 @@ META["C19"] = dict(
     note="Trusts: ProcEnv mapping (OS pipe semantics) established by stubs; timeouts 30 s vs ~2 s observed.",
     technique="Lean 4 proof over a process-interaction state machine + fault injection with stub formatters",
 )
+META["C07"] = dict(
+    text="Kernel-checked C07_structs (every generated `impl S` block: S is a struct of the module; exactly one attribute per @location member, in member order, carrying that member's "
+         "location, the offset_of! of the field of the same name, and a format whose wgpu numeric type equals the member type's scalar kind, width and component count; count = number of "
+         "attributes; stride = size_of::<S>(); builtins contribute none), C07_format (format table vs WGSL type, every accepted type), getVertexInputStructs_mem (blocks exist only for struct "
+         "parameters of vertex entries) and the buffer count (C14). Partial: per-entry buffer order / uniqueness are evaluated on the real output; offsets and stride are symbolic "
+         "(rustc evaluates them); vertex-input validation is done by the REAL wgpu-core check_stage with the generated attributes. Open known finding: bare @location parameters.",
+    design_ref="DESIGN.md section 5 (C07)",
+    note="Trusts: WgpuVertex.formatInfo transcription; Ext.ReprC is not built: byte values of offsets / stride come from rustc in the batch harness.",
+    technique="Lean 4 proof + decidable spec on real output + the real wgpu-core check_stage as oracle",
+)
